@@ -174,6 +174,14 @@ def s08_monotone_counters(ctx, only_types=None, rule_id='S08'):
             r.sample({'field': key, 'type': ity, 'writes': ['%s: %s' % (k, tree_str(t)[:90]) for k, t, _, _ in writes][:4]})
             if 'increment' in kinds and all(k == 'increment' for k in kinds):
                 bits = INT_BITS.get(ity, 64)
+                # an absolute position must not be narrowed on its way to a comparison: a truncating cast re-introduces the capacity limit
+                for b in bodies:
+                    for bi, si, s in b.stmts():
+                        if s['s'] == 'assign' and s['rv']['r'] == 'cast' and s['rv']['kind'].startswith('IntToInt'):
+                            src = b.tree_of_operand(s['rv']['a'])
+                            if _is_self_field(src, fname) and INT_BITS.get(s['rv']['to'], 64) < bits:
+                                r.violate(key + '|position-truncated|' + s['rv']['to'], 'the absolute position %s: %s is cast to %s in the step function: it wraps every 2^%d '
+                                          'steps, so comparisons made with it change meaning on long streams' % (key, ity, s['rv']['to'], INT_BITS.get(s['rv']['to'], 64)), b.file, s['sp']['l'])
                 if bits < 64:
                     w = writes[kinds.index('increment')]
                     r.violate(key + '|monotone-%s' % ('narrow'), 'field %s: %s is only ever incremented (%s) in the step function: after 2^%d steps it '
